@@ -160,6 +160,8 @@ def params_for(sp, route, tier):
             out.append((C, last, 0))
         return out
     tols = range(len(TOLS))
+    if kind == "B" and len(sp[1]) == len(SYMS):
+        tols = (0, 2)          # the 10^6-table space: default and loose triples
     if route == "SC_apply":
         ordmaxs = [last, last - 1] if kind == "B" and len(sp[1]) < len(SYMS) else [last]
         return [(om, ox, t) for ox in ordmaxs for om in range(ox + 1) for t in tols]
@@ -449,7 +451,8 @@ def plan(tier):
         ]
     return [
         (("A", 4, False), ("SC_apply",), 1000),
-        (("A", 3, True), ROUTES, 250),
+        (("A", 3, True), ("SC_apply",), 250),
+        (("A", 3, False), ("SSIcov.run", "pLSCF.run"), 100),
         (("A", 2, True), ROUTES, 100),
         (("B", list(range(len(SYMS)))), ("SC_apply",), 2000),
         (("B", SUB5), ("SSIcov.run", "pLSCF.run"), 125),
